@@ -16,12 +16,12 @@ import (
 
 // c02sess is one honest session with the bookkeeping the oracle needs.
 type c02sess struct {
-	name     string
-	s        *p2pke.Session
-	peer     *c02sess
-	sent     map[string]bool   // plaintexts given to Send
-	accepted map[string]bool   // plaintexts handed to the application
-	counters map[uint32][]byte // every emitted message by counter
+	name      string
+	s         *p2pke.Session
+	peer      *c02sess
+	sent      map[string]bool   // plaintexts given to Send
+	accepted  map[string]bool   // plaintexts handed to the application
+	counters  map[uint32][]byte // every emitted message by counter
 	nearLimit bool
 }
 
